@@ -15,7 +15,7 @@ open SExp
 def parseObj : SExp → Option Obj
   | .list [.atom "contour", n] => do some (.contour (← asNat? n))
   | .list [.atom "comp", n] => do some (.comp (← asNat? n))
-  | .list [.atom "glyph", n] => do some (.glyph (← asNat? n))
+  | .list [.atom "glyph", n] => do some (.glyph (← asStr? n))
   | .atom "groups" => some .groups
   | _ => none
 
@@ -23,11 +23,6 @@ def parseKw : SExp → Option KwArgs
   | .list xs => xs.mapM fun
     | .list [k, v] => do some ((← asStr? k), (← asInt? v))
     | _ => none
-  | _ => none
-
-def parseCell : SExp → Option CCell
-  | .atom "pts" => some .pts
-  | .atom "attr" => some .attr
   | _ => none
 
 def optStr? := asOpt? asStr?
@@ -41,25 +36,25 @@ def parseOp : SExp → Option Op
   | .list [.atom "destroyAll", o] => do some (.destroyAll (← parseObj o))
   | .list [.atom "mkContour", c] => do some (.mkContour (← asNat? c))
   | .list [.atom "mkComp", k, b] => do some (.mkComp (← asNat? k) (← optStr? b))
-  | .list [.atom "cmut", c, m, cell] => do some (.cmut (← asNat? c) (← asStr? m) (← parseCell cell))
+  | .list [.atom "cmut", c, m] => do some (.cmut (← asNat? c) (← asStr? m))
   | .list [.atom "cmove", c, dx, dy] => do some (.cmove (← asNat? c) (← asInt? dx) (← asInt? dy))
-  | .list [.atom "kmut", k, m, cell] => do some (.kmut (← asNat? k) (← asStr? m) (← parseCell cell))
+  | .list [.atom "kmut", k, m] => do some (.kmut (← asNat? k) (← asStr? m))
   | .list [.atom "ksetBase", k, b] => do some (.ksetBase (← asNat? k) (← optStr? b))
-  | .list [.atom "gmut", g, m] => do some (.gmut (← asNat? g) (← asStr? m))
-  | .list [.atom "insContour", g, c, i] => do some (.insContour (← asNat? g) (← asNat? c) (← asNat? i))
-  | .list [.atom "remContour", g, c] => do some (.remContour (← asNat? g) (← asNat? c))
-  | .list [.atom "insComp", g, k, i] => do some (.insComp (← asNat? g) (← asNat? k) (← asNat? i))
-  | .list [.atom "remComp", g, k] => do some (.remComp (← asNat? g) (← asNat? k))
-  | .list [.atom "newGlyph", n, g] => do some (.newGlyph (← asStr? n) (← asNat? g))
+  | .list [.atom "gmut", g, m] => do some (.gmut (← asStr? g) (← asStr? m))
+  | .list [.atom "insContour", g, c, i] => do some (.insContour (← asStr? g) (← asNat? c) (← asNat? i))
+  | .list [.atom "remContour", g, c] => do some (.remContour (← asStr? g) (← asNat? c))
+  | .list [.atom "insComp", g, k, i] => do some (.insComp (← asStr? g) (← asNat? k) (← asNat? i))
+  | .list [.atom "remComp", g, k] => do some (.remComp (← asStr? g) (← asNat? k))
+  | .list [.atom "newGlyph", n] => do some (.newGlyph (← asStr? n))
   | .list [.atom "delGlyph", n] => do some (.delGlyph (← asStr? n))
-  | .list [.atom "rename", g, n] => do some (.rename (← asNat? g) (← asStr? n))
+  | .list [.atom "rename", g, n] => do some (.rename (← asStr? g) (← asStr? n))
   | .list [.atom "gset", m] => do some (.gset (← asStr? m))
   | _ => none
 
 def encObj : Obj → SExp
   | .contour n => .list [.atom "contour", ofNat n]
   | .comp n => .list [.atom "comp", ofNat n]
-  | .glyph n => .list [.atom "glyph", ofNat n]
+  | .glyph n => .list [.atom "glyph", .str n]
   | .groups => .atom "groups"
 
 def encSubKey (sk : SubKey) : SExp :=
